@@ -233,9 +233,9 @@ Open Scope string_scope.
 Definition model_entry_writes : list (string * list string) := [
   ("BeginBlock", ["ext:shutterevents.MakeABCIEvent:*BatchConfig"]);
   ("CheckTx", ["CheckTxState.TxCounts"; "NonceTracker.RandomNonces"]);
-  ("Commit", ["CheckTxState.NonceTracker"; "CheckTxState.TxCounts"; "ShutterApp.LastSaved"; "dyn:(func() literal)"; "ext:gob.Encode:*ShutterApp"]);
+  ("Commit", ["CheckTxState.NonceTracker"; "CheckTxState.TxCounts"; "ShutterApp.LastSaved"; "ext:gob.Encode:*ShutterApp"]);
   ("Info", []);
-  ("PersistToDisk", ["ShutterApp.LastSaved"; "dyn:(func() literal)"; "ext:gob.Encode:*ShutterApp"]);
+  ("PersistToDisk", ["ShutterApp.LastSaved"; "ext:gob.Encode:*ShutterApp"]);
   ("PrepareProposal", []);
   ("ProcessProposal", []);
   ("Query", [])
